@@ -748,8 +748,7 @@ def gen_df_checks(rng, cls, dts, ws):
         r = rng.random()
         if cls == "str":
             mx = max(len(w) for w in ws)
-            opts = [{"k": "str_length", "a": {"min_value": None if r < 0.3 else 0,
-                                              "max_value": mx + rng.choice([0, 2])}},
+            opts = [{"k": "ne", "a": {"value": "zz"}},
                     {"k": "isin", "a": {"allowed_values": sorted(set(ws)) + ["zz"]}},
                     {"k": "c_ew", "a": {"fn": "maxlen", "n": mx + 3}},
                     {"k": "c_dfvec", "a": {"fn": "maxlen", "n": mx + 3}}]
